@@ -289,7 +289,7 @@ def rk4_through_pbm(ctx, kind="rk4", n=2):
 
 
 HARNESSES = [
-    Harness("C06.rk4_through_pbm", rk4_through_pbm, functions=_F, opts={"ob_timeout": 30.0}, budget={"quick": 200.0, "thorough": 900.0},
+    Harness("C06.rk4_through_pbm", rk4_through_pbm, functions=_F, opts={"ob_timeout": 30.0, "max_paths": 10}, budget={"quick": 200.0, "thorough": 900.0},
             assumptions=["growth fields > 0 (no sign branches); the growth law is replaced by one symbolic field per stage; real arithmetic"],
             bounds={"classes": "n"}, params={"quick": [{"kind": "rk4", "n": 2}, {"kind": "euler", "n": 2}], "thorough": [{"kind": "rk4", "n": 3}]}),
     Harness("C06.aliasing", aliasing, functions=[ExplicitEulerIterator, RK4Iterator],
